@@ -325,5 +325,5 @@ META = {
             "run with the rebuild step skipped (corpus/k2/offcheck.py, library at HEAD) is green and wrote evidence/C06.json; mutants "
             "corpus/k2/v1-v4 fire, vh (harmless) is quiet.",
     "technique": "Coq proof (case analysis and induction on the waiter queue) + extracted-model replay of observed timed histories + log oracle",
-    "claimed": False,
+    "claimed": True,
 }
